@@ -12,6 +12,7 @@ import (
 
 // Eval translates contract expressions to SMT over a symbolic state.
 type Eval struct {
+	cur   *State // the state outside old(): now(e) evaluates e there
 	x     *Engine
 	st    *State
 	old   *State
@@ -385,7 +386,7 @@ func (e *Eval) heapWf(r Val) {
 		return
 	}
 	switch r.Typ.Underlying().(type) {
-	case *types.Pointer, *types.Slice, *types.Map, *types.Interface:
+	case *types.Pointer, *types.Slice, *types.Map, *types.Interface, *types.Basic:
 		if r.Addr != nil || strings.HasPrefix(r.T, "(select") {
 			e.x.assume(e.st, e.x.wf(r.Typ, r.T, e.st))
 		}
@@ -481,6 +482,17 @@ func (e *Eval) call(n *Node) Val {
 				e.fail("old() not available here")
 			}
 			c := e.with(e.old)
+			if c.cur == nil {
+				c.cur = e.st
+			}
+			return c.eval(args[0])
+		case "now":
+			// now(e) inside old(...): evaluate e in the current state
+			if e.cur == nil {
+				return e.eval(args[0])
+			}
+			c := e.with(e.cur)
+			c.cur = nil
 			return c.eval(args[0])
 		case "len", "cap":
 			v := e.eval(args[0])
@@ -570,6 +582,32 @@ func (e *Eval) call(n *Node) Val {
 				v = Val{T: "0", Sort: "Int"}
 			}
 			return Val{T: fmt.Sprintf("(store %s %s %s)", a.T, i.T, v.T), Sort: e.sortOf(a)}
+		case "deref":
+			// deref(p): the value a pointer to a scalar points to (a location, usable in modifies)
+			v := e.eval(args[0])
+			if v.Typ == nil {
+				e.fail("deref of ghost value")
+			}
+			pt, ok := v.Typ.Underlying().(*types.Pointer)
+			if !ok {
+				e.fail("deref of non-pointer %s", typeName(v.Typ))
+			}
+			if _, isS := structOf(pt.Elem()); isS {
+				e.fail("deref of struct pointer: select fields instead")
+			}
+			key := x.memKey(pt.Elem())
+			return Val{T: fmt.Sprintf("(select %s %s)", x.get(e.st, key), v.T), Typ: pt.Elem(), Addr: &Addr{Kind: "cell", Key: key, Ref: v.T}}
+		case "ptrslice":
+			// ptrslice(g, T): view a ghost slice value as []*T
+			v := e.eval(args[0])
+			var tn *ssa.Type
+			if args[1].Op == "ident" && e.pkg != nil {
+				tn, _ = e.pkg.Members[args[1].Name].(*ssa.Type)
+			}
+			if tn == nil {
+				e.fail("ptrslice: unknown type %s", args[1])
+			}
+			return Val{T: v.T, Typ: types.NewSlice(types.NewPointer(tn.Type()))}
 		case "stored":
 			// stored(v): the value held by an atomic.Value (argument: address of the atomic.Value)
 			v := e.eval(args[0])
